@@ -282,6 +282,19 @@ Fixpoint time_loop (compat : bool) (fuel : nat) (rest : bytes) (consumed : N) (s
   end
   end.
 
+(** after a tag: for a length-delimited field read the length and cut the field
+    data out; otherwise the field data is everything that remains.
+    Returns (field data, data after the length header, header length). *)
+Definition read_field_data (site : string) (wt : N) (rest1 : bytes) : res (bytes * bytes * N) :=
+  if wt =? WTLength then
+    let '(l, k) := read_varuint rest1 in
+    if (k <=? 0)%Z then Err else
+    do rest2 <- go_drop site (Z.to_N k) rest1;
+    if len rest2 <? l then Err else
+    do fdata <- go_take site l rest2;
+    Ok (fdata, rest2, Z.to_N k)
+  else Ok (rest1, rest1, 0).
+
 Definition find_field {D} (tbl : list (Z * nat * D)) (index : Z) : option (nat * D) :=
   match find (fun e => (fst (fst e) =? index)%Z) tbl with
   | Some e => Some (snd (fst e), snd e)
@@ -307,19 +320,10 @@ Fixpoint struct_loop (tbl : list (Z * nat * decoder)) (fuel : nat) (rest : bytes
       do rest2 <- go_drop "StructCodec.Read data[offset:]" k rest1;
       struct_loop tbl f rest2 (c1 + k) cur
     | Some (sl, decf) =>
-      if wt =? WTLength then
-        let '(l, k) := read_varuint rest1 in
-        if (k <=? 0)%Z then Err else
-        do rest2 <- go_drop "StructCodec.Read data[offset:]" (Z.to_N k) rest1;
-        if len rest2 <? l then Err else
-        do fdata <- go_take "StructCodec.Read data[offset:fl]" l rest2;
-        do (fv, used) <- decf fdata wt (slot cur sl);
-        do rest3 <- go_drop "StructCodec.Read data[offset:]" used rest2;
-        struct_loop tbl f rest3 (c1 + Z.to_N k + used) (set_nth sl fv cur)
-      else
-        do (fv, used) <- decf rest1 wt (slot cur sl);
-        do rest3 <- go_drop "StructCodec.Read data[offset:]" used rest1;
-        struct_loop tbl f rest3 (c1 + used) (set_nth sl fv cur)
+      do (fdata, rest2, k) <- read_field_data "StructCodec.Read data[offset:fl]" wt rest1;
+      do (fv, used) <- decf fdata wt (slot cur sl);
+      do rest3 <- go_drop "StructCodec.Read data[offset:]" used rest2;
+      struct_loop tbl f rest3 (c1 + k + used) (set_nth sl fv cur)
     end
   end
   end.
@@ -440,14 +444,8 @@ Definition read_tag_and_length (rest : bytes) : res (N * Z * bytes * bytes * N) 
   let '(wt, index, n) := read_tag rest in
   if (n <=? 0)%Z then Err else
   do rest1 <- go_drop "MapCodec.readTagAndLength data[offset:]" (Z.to_N n) rest;
-  if wt =? WTLength then
-    let '(l, k) := read_varuint rest1 in
-    if (k <=? 0)%Z then Err else
-    do rest2 <- go_drop "MapCodec.readTagAndLength data[offset:]" (Z.to_N k) rest1;
-    if len rest2 <? l then Err else
-    do fdata <- go_take "MapCodec.readMapEntry data[offset:fieldEnd]" l rest2;
-    Ok (wt, index, fdata, rest2, Z.to_N n + Z.to_N k)
-  else Ok (wt, index, rest1, rest1, Z.to_N n).
+  do (fdata, rest2, k) <- read_field_data "MapCodec.readTagAndLength data[offset:fieldEnd]" wt rest1;
+  Ok (wt, index, fdata, rest2, Z.to_N n + k).
 
 (** MapCodec.readMapEntry: [data] is exactly the entry *)
 Definition read_map_entry (kdec vdec : decoder) (kzero vzero : val) (data : bytes) (m : list (val * val))
